@@ -37,10 +37,22 @@ def measure(r):
     sizes, over = {}, []
     seen = set()
 
+    todo = collections.deque()      # breadth first: every object is reported under its SHORTEST path, so that the depth
+    #                                 limit does not cut off what hangs below an object that is also reachable the long way
+
     def walk(o, path, depth):
-        if id(o) in seen or depth > 6:
+        todo.append((o, path, depth))
+
+    def visit(o, path, depth):
+        if id(o) in seen or depth > 8:
             return
         seen.add(id(o))
+        if hasattr(o, "_maxage") and isinstance(getattr(o, "_slots", None), dict):
+            # a per-second statistics counter: one slot per second of the last `maxage` seconds (documented fixed window)
+            if len(o._slots) > o._maxage + 1:
+                over.append(path)
+            sizes[path] = "<=%d slots" % (o._maxage + 1)
+            return
         if isinstance(o, collections.deque):
             if o.maxlen is not None:
                 if len(o) > o.maxlen:
@@ -81,6 +93,8 @@ def measure(r):
             and type(v).__name__ not in ("StoppableThread", "PeerLogAdapter", "MessageDumpLogAdapter", "SequenceGenerator",
                                          "SessionGenerator")
     walk(node, "node", 0)
+    while todo:
+        visit(*todo.popleft())
     threads = dict(sim.live_threads_by_role())
     threads.pop("spawn", None)
     open_socks = sum(1 for s in sim.sockets if not getattr(s, "closed", False) and s not in sim.listeners)
@@ -481,7 +495,7 @@ def h_no_cer(n):
 def h_stopping(n):
     h = Hist(cfg2())
     cid = h.established()
-    h.do(dict(ev="stop", force=False, timeout=200))
+    h.do(dict(ev="stop", force=False, timeout=max(200, 2 * n + 50)))     # the wait outlasts all n attempts
     for _ in range(n):
         h.accept()
         h.tick(1)
@@ -515,6 +529,30 @@ def h_inbound_rejected_by_app(n):
             a.result_code = 3004
             a.header.is_error = True
             h.do(dict(ev="app_answer", app=app, msg=a))
+    return h
+
+
+def h_node_dpr(n):
+    """n connections that the NODE ends with a DPR (Node.send_dpr); the peer answers with a DPA and leaves closing the
+    transport to the initiator, as RFC 6733 5.4 prescribes"""
+    h = Hist(cfg2())
+    for _ in range(n):
+        cid = h.established()
+        ident = next((i_ for i_, c_ in h.r.cid_of_ident().items() if c_ == cid), None)
+        conn = h.r.node.connections.get(ident)
+        if conn is None:
+            continue
+        h.r.remotes[cid].take_messages()
+        hnd = h.r.sim.spawn(lambda: h.r.node.send_dpr(conn), name="dpr")
+        h.r.sim.run()
+        dpr = [m for m in h.r.remotes[cid].take_messages() if m.header.is_request and m.header.command_code == 282]
+        if dpr:
+            h.r.remotes[cid].feed(NS.build_message(dict(kind="dpa", host="cli0.example.net", hbh=dpr[0].header.hop_by_hop_identifier,
+                                                       e2e=dpr[0].header.end_to_end_identifier)))
+        h.r.sim.run()
+        h.r.sim.advance(2)
+        if not h.r.remotes[cid].closed_by_node:
+            h.node_left_open = getattr(h, "node_left_open", 0) + 1
     return h
 
 
@@ -561,6 +599,7 @@ KINDS = [("inbound request/answer", h_inbound, True), ("outbound request/answer"
          ("inbound request answered with an Experimental-Result only", h_inbound_experimental, True),
          ("answers submitted after the requester's DPR", h_answer_after_dpr, True),
          ("connections that each carry one transaction", h_conn_with_transaction, True),
+         ("connections ended by the node's DPR, the peer leaves the closing to the node", h_node_dpr, False),
          ("requests the application rejects with the E bit", h_inbound_rejected_by_app, True),
          ("CER repeated on the established connection", h_repeated_cer, True),
          ("rejected retransmissions", h_retransmissions, True), ("outbound request answered after the timeout", h_outbound_late, True),
@@ -634,6 +673,10 @@ def check(run):
             left = {k: m["sizes"].get(k) for k in ("node.connections", "node.peer_sockets", "node.socket_peers", "node._half_ready_connections")
                     if m["sizes"].get(k)}
             workers = {k: v for k, v in m["threads"].items() if k.startswith("work_")}
+            if getattr(h, "node_left_open", 0):
+                run.violation("released-when-closed", {"kind": name, "N": n}, {"connections_the_node_did_not_close": h.node_left_open},
+                              "the node closes the connection once the DPA to its DPR has arrived",
+                              what=f"{name}: the node leaves the connection open after the DPA")
             if left or workers or m["open_sockets"]:
                 run.violation("released-when-closed", {"kind": name, "N": n}, {"tables": left, "worker_threads": workers, "open_sockets": m["open_sockets"]},
                               "no connection table entry, no connection worker thread, no open peer socket",
